@@ -137,6 +137,17 @@ class C07(ost.OutstationProp):
                                     rng.choice(list(SRCS) if rng.chance(1, 4) else ["peer"]),
                                     rng.below(3), rng.bytes(rng.below(20))))
                 i += 1
+        if tier != "thorough":
+            # deterministic part of the quick tier: every function that makes the link layer REPLY (reset, link status
+            # request, confirmed user data, test) x addressed to the own / the self address x self-address feature on/off
+            # x both roles, from the right direction (seeded change R6_s was caught by chance only)
+            for role in ("master", "outstation"):
+                d = 0x80 if role == "outstation" else 0x00
+                for selfaddr in (0, 1):
+                    for base in (0x40, 0x49, 0x42, 0x43, 0x53, 0x73, 0x44):
+                        for dname in ("own", "self"):
+                            out.append(self.one("c07_%d" % i, role, selfaddr, 1024, d | base, dname, "peer", (i % 3), b"\xC0\x01" if base & 1 else b""))
+                            i += 1
         # confirmed user data sequences: delivered at most once per frame-count-bit toggle after a reset
         for _ in range(60 if tier == "quick" else 600):
             role = rng.choice(["master", "outstation"])
